@@ -125,8 +125,11 @@ func (s *rsScript) opPublish(c *rsClient) {
 			pk.Properties.User = []packets.UserProperty{{Key: "k:", Val: "v_"}}
 		}
 	}
-	s.note("publish id=%q topic=%q qos=%d retain=%v len=%d mei=%d", c.id, pk.TopicName, pk.FixedHeader.Qos, pk.FixedHeader.Retain,
-		len(pk.Payload), pk.Properties.MessageExpiryInterval)
+	if c.ver == 5 && r.Intn(3) == 0 { // sent with a topic alias (the topic name is given as well: first use)
+		pk.Properties.TopicAlias, pk.Properties.TopicAliasFlag = uint16(1+r.Intn(9)), true
+	}
+	s.note("publish id=%q topic=%q qos=%d retain=%v len=%d mei=%d alias=%d", c.id, pk.TopicName, pk.FixedHeader.Qos, pk.FixedHeader.Retain,
+		len(pk.Payload), pk.Properties.MessageExpiryInterval, pk.Properties.TopicAlias)
 	s.b.send(c, pk)
 }
 
@@ -341,6 +344,14 @@ var directed = []func(s *rsScript){
 		p := s.conn(rsConnect{id: "r:p", ver: 5, clean: true})
 		s.pub(p, "t:1/a", "v1", 1, true, 0)
 		s.pub(p, "t:1/a", "v2", 0, true, 100000)
+		// retained publishes sent with a topic alias: first binding it, then by the alias alone
+		al := packets.Packet{FixedHeader: packets.FixedHeader{Type: packets.Publish, Retain: true}, TopicName: "al/1", Payload: []byte("a1")}
+		al.Properties.TopicAlias, al.Properties.TopicAliasFlag = 5, true
+		s.note("publish retained al/1 with alias 5")
+		s.b.send(p, al)
+		al.TopicName, al.Payload = "", []byte("a2")
+		s.note("publish retained by alias 5 alone")
+		s.b.send(p, al)
 		s.pub(p, "t_2", "x", 0, true, 5)
 		s.pub(p, "ü/é", "y", 2, true, 0)
 		s.opAnswer(p)
